@@ -101,6 +101,12 @@ func newAPIRequest() *apiRequest {
 func (r *apiRequest) finishExecution() {
 	close(r.executionDone)
 	r.executionDone = make(chan struct{})
+	// Batch invocations and chained promises that the execution left behind (pending work that a
+	// failing sibling discarded) belong to that execution only. A subscription runs one execution
+	// per event with the same apiRequest: without this the next event's batch call would include
+	// the field contexts of the previous event.
+	r.batches = nil
+	r.chainedAsyncResolutions = nil
 }
 
 // awaitPromise waits for a promise that is fulfilled by the idle handler. It gives up (ok == false)
